@@ -18,7 +18,7 @@ func init() {
 		Title: "Results and checksums are a deterministic function of schema and input",
 		Explanation: "Determinism fails only through a hidden input; the hidden inputs of this code base are enumerable. " +
 			"R15a/b history-dependent identifiers are keys only: every value derived (forward data flow through conversions, formatting, concatenation, local and captured variables) from a load of Node.ID or of the random declaration hash ends in a map key, a cache-key argument or a comparison — never in a return value, a stored field, an error text or an emitted value. " +
-			"R15c clock, randomness and process identity (time.Now, math/rand, crypto/rand, os.Getpid/Hostname/Getenv, uuid.New*) are called on the run path only by the function registered as the documented now custom function; random UUIDs only by the load-time hashing function. " +
+			"R15c clock, randomness and process identity (time.Now, math/rand, crypto/rand, os.Getpid/Hostname/Getenv, uuid.New*) are called on the run path only by the function registered as the documented now custom function; random UUIDs only by the load-time hashing function (or a helper all of whose enumerable callers are that function). " +
 			"R15d every range over a map in run-set or load-set code has an order-insensitive body: only map updates/deletes, VM global set/delete, pure calls, or appends to a list that is sorted in the same function; an early return inside such a loop is allowed only at load time with a non-nil error. " +
 			"R15e checksum provenance: nothing reachable from RawRecord.Checksum reads Node.ID or calls a source of R15c. " +
 			"R15f process history: a node taken from the pool is blank (reset stores every field; = C12 R12b/R12d), so results do not depend on what earlier transforms left in pooled nodes. R15g the same for pooled JavaScript VMs: globals defined for one call are wiped (deferred, before Put) on every path (= C20 R20a).",
